@@ -169,6 +169,9 @@ pub enum Op {
     // ---- control ----
     /// panic!("injected") if the last result of this thread equals v (or always when v < 0)
     PanicIf { v: i8 },
+    /// `cell.with_mut(|_| panic!("injected failure"))` / the same inside an atomic's `with_mut`
+    PanicInCellMut { c: u8 },
+    PanicInAtomMut { a: u8 },
     StopExploring,
     Explore,
     SkipBranch,
@@ -237,13 +240,14 @@ impl Program {
             | Op::Cas { a, .. }
             | Op::Await { a, .. }
             | Op::AtomWithMut { a }
+            | Op::PanicInAtomMut { a }
             | Op::AtomUnsyncLoad { a } => Some(*a),
             _ => None,
         })
     }
     pub fn n_cells(&self) -> usize {
         self.max_index(|op| match op {
-            Op::CellRead { c } | Op::CellWrite { c } => Some(*c),
+            Op::CellRead { c } | Op::CellWrite { c } | Op::PanicInCellMut { c } => Some(*c),
             _ => None,
         })
     }
@@ -416,6 +420,8 @@ impl fmt::Display for Op {
             LazyGet { k } => write!(f, "lazy{}.get", k),
             LazyCellRead { k } => write!(f, "lazy{}.cell_read", k),
             PanicIf { v } => write!(f, "panic_if({})", v),
+            PanicInCellMut { c } => write!(f, "c{}.with_mut(panic)", c),
+            PanicInAtomMut { a } => write!(f, "x{}.with_mut(panic)", a),
             StopExploring => write!(f, "stop_exploring"),
             Explore => write!(f, "explore"),
             SkipBranch => write!(f, "skip_branch"),
